@@ -74,6 +74,9 @@ func parseAperture(buf []byte) Aperture {
 			if i < len(buf)+1 {
 				n := uint16(parseUint(buf[:i]))
 				d := uint16(parseUint(buf[i+1:]))
+				if d == 0 {
+					return Aperture(0)
+				}
 				return Aperture(n / d)
 			}
 		}
